@@ -73,7 +73,8 @@ def run_shard(shard, ctx):
     opt = st.sampled_from([False, False, False, False, True])
     seg = st.tuples(st.booleans(), st.booleans(), st.lists(st.sampled_from(ids), min_size=1, max_size=4), opt)
     # bias: histories that stay on the two-integer variants (same cache file, same source length) are the adversarial ones
-    core = [i for i in ids if i.startswith("hb") or i.startswith("bh") or i in ("auto", "plain", "collide_a", "collide_b")]
+    core = [i for i in ids if i.startswith("hb") or i.startswith("bh") or i.startswith("four_") or i.startswith("mix_") or
+            i in ("auto", "plain", "collide_a", "collide_b", "odd", "odd_last", "data")]
     seg_core = st.tuples(st.booleans(), st.booleans(), st.lists(st.sampled_from(core), min_size=1, max_size=4), opt)
     hist = st.lists(st.one_of(seg, seg_core, seg_core), min_size=1, max_size=4)
     run_given(ctx, hist, lambda h: run_history(ctx, h, V, vmap), 150 if ctx.tier == "quick" else 1500)
